@@ -87,6 +87,9 @@ type Hit struct {
 	Pos  string
 	Path []string // witness: positions of blocks along the path
 	Why  string
+	// LastCond/LastVal: the last branch condition decided on the witness path and its value
+	LastCond ast.Expr
+	LastVal  bool
 }
 
 type QResult struct {
@@ -311,17 +314,29 @@ func (s *Scope) Run(q Query) QResult {
 	type qitem struct {
 		st   pstate
 		prev int
+		cond ast.Expr // the branch condition decided on the edge into this state (nil: unconditional)
+		val  bool
 	}
 	var queue []qitem
 	visited := map[pstate]bool{}
-	push := func(st pstate, prev int) {
+	push := func(st pstate, prev int, cond ast.Expr, val bool) {
 		if visited[st] {
 			return
 		}
 		visited[st] = true
-		queue = append(queue, qitem{st, prev})
+		queue = append(queue, qitem{st, prev, cond, val})
 	}
-	push(pstate{blk: 0, started: q.Start == nil, kind: stClear}, -1)
+	push(pstate{blk: 0, started: q.Start == nil, kind: stClear}, -1, nil, false)
+	// lastCond: the last branch decision on the witness path (for construct keys that name the
+	// guard through which an exit is reached, independent of if / switch form)
+	lastCond := func(i int) (ast.Expr, bool) {
+		for ; i >= 0; i = queue[i].prev {
+			if queue[i].cond != nil {
+				return queue[i].cond, queue[i].val
+			}
+		}
+		return nil, false
+	}
 	reported := map[ast.Node]bool{}
 	pathOf := func(i int) []string {
 		var rev []string
@@ -358,7 +373,8 @@ func (s *Scope) Run(q Query) QResult {
 				return
 			}
 			reported[n] = true
-			res.Hits = append(res.Hits, Hit{Node: n, Pos: s.P.Pos(n.Pos()), Path: pathOf(qi), Why: why})
+			lc, lv := lastCond(qi)
+			res.Hits = append(res.Hits, Hit{Node: n, Pos: s.P.Pos(n.Pos()), Path: pathOf(qi), Why: why, LastCond: lc, LastVal: lv})
 		}
 		endsInReturn := false
 		endsNoReturn := false
@@ -505,7 +521,14 @@ func (s *Scope) Run(q Query) QResult {
 					}
 				}
 			}
-			push(nst, qi)
+			var ec ast.Expr
+			ev := false
+			for _, f := range xb.facts[i] {
+				if f.Whole {
+					ec, ev = f.Expr, f.Val
+				}
+			}
+			push(nst, qi, ec, ev)
 		}
 	}
 	return res
